@@ -5,6 +5,11 @@ running under harness/sim.py the primitive storage writes are intercepted:
 
   journal.resize / journal.record-store / journal.header-store   the mmap of `ResizableFile` is a proxy
         (module global `pysyncobj.journal.mmap` replaced by a shim for the whole run of this component)
+  journal.tmp-remove / journal.tmp-create / journal.tmp-write     the head drop (`FileJournal.deleteEntriesTo`, repair
+  journal.tmp-resize / journal.tmp-record-store /                 D15) builds `<journal>.tmp` and moves it over the
+  journal.tmp-header-store / journal.rename / journal.reopen      journal: `pysyncobj.journal.os` (proxy: `remove`),
+        `pysyncobj.journal.open` ('wb' of a non-meta file = creation with the default header), the mmap proxy of the
+        tmp file, `shutil.move(tmp, journal)`, and the mapping of the replaced journal (no write; a crash point)
   meta.tmp-create / meta.tmp-write / meta.move                   `pysyncobj.journal.open` (only `*.meta.tmp`,
         'wb') and `pysyncobj.journal.shutil` (proxy: `move`)
   dump.tmp-create / dump.tmp-write / dump.rename                 `pysyncobj.serializer.open` (only 'wb': the
@@ -31,7 +36,13 @@ transport, same clock) and ticked twice, and the C06 / C07 statements are evalua
       dump readable or absent  restart:dump-file-torn
       recovery does not raise  restart:recovery-raises:<Exc>
       a crash point inside `FileJournal.deleteEntriesTo` that loses entries is reported with the journal
-      component's signature journal.deleteEntriesTo:kill-between-clear-and-readd (finding D15).
+      component's signature journal.deleteEntriesTo:kill-between-clear-and-readd (D15, repaired in /repo 4be213c:
+      before the rename the complete old journal is recovered, after it the new one).  Crash images contain
+      `<journal>.tmp` where it exists; on every image that holds one the recovered node is additionally made to
+      drop its journal head again (forced compaction) and its journal is reopened: a stale tmp file is harmless
+      restart:stale-journal-tmp-harmful.
+      with `dynamicMembershipChange`: after the first ticks `otherNodes` == the membership commands of the journal
+      after the dump position folded over the dump's member list   restart:members-not-fold-of-journal-over-dump
  C07  a vote (`response_vote`, own `request_vote`) or a term (any message carrying `term`) that was on the
       wire before the crash point is what the recovered node has: term not lower
       restart:term-moved-backwards; a competing candidate of that term, asked right after the recovery,
@@ -39,7 +50,7 @@ transport, same clock) and ticked twice, and the C06 / C07 statements are evalua
 
 `coverage` lists handler kind × primitive kind crash-tested (`crash:<handler>|<primitive>`).
 Private attributes read: `_SyncObj__raftLog`; the injected probe reads nothing else.  Module globals
-replaced for the duration of `run`: pysyncobj.journal.{mmap,open,shutil}, pysyncobj.serializer.{open,
+replaced for the duration of `run`: pysyncobj.journal.{mmap,open,shutil,os}, pysyncobj.serializer.{open,
 atomicReplace}, and the methods FileJournal.{deleteEntriesTo,deleteEntriesFrom,clear} are wrapped (flag
 only) — all restored in a finally.
 """
@@ -85,7 +96,7 @@ class Tap(object):
     def install(self, jm, sermod):
         tap = self
         self.jm, self.sermod = jm, sermod
-        self.saved = {"j.open": jm.__dict__.get("open"), "j.shutil": jm.shutil, "j.mmap": jm.mmap,
+        self.saved = {"j.open": jm.__dict__.get("open"), "j.shutil": jm.shutil, "j.mmap": jm.mmap, "j.os": jm.os,
                       "s.open": sermod.__dict__.get("open"), "s.ar": sermod.atomicReplace,
                       "delto": jm.FileJournal.deleteEntriesTo, "delfrom": jm.FileJournal.deleteEntriesFrom,
                       "clear": jm.FileJournal.clear}
@@ -100,8 +111,11 @@ class Tap(object):
             def __len__(self):
                 return len(self._mm)
 
+            def _k(self, kind):
+                return ("journal.tmp-" if self._path.endswith(".tmp") else "journal.") + kind
+
             def resize(self, n):
-                tap.note("journal.resize", self._path)
+                tap.note(self._k("resize"), self._path)
                 self._mm.resize(n)
 
             def __getitem__(self, key):
@@ -114,13 +128,13 @@ class Tap(object):
                     self._mm[key] = values
                     return
                 if start == HEADER_OFF and len(values) == 4:
-                    tap.note("journal.header-store", self._path)
+                    tap.note(self._k("header-store"), self._path)
                 else:
-                    tap.note("journal.record-store", self._path)
+                    tap.note(self._k("record-store"), self._path)
                     if len(values) > 1 and tap.listener is not None:
                         h = len(values) // 2
                         self._mm[start:start + h] = values[:h]
-                        tap.note("journal.record-store", self._path, torn=True)
+                        tap.note(self._k("record-store"), self._path, torn=True)
                 self._mm[key] = values
 
             def flush(self, *a):
@@ -135,6 +149,8 @@ class Tap(object):
                     path = os.readlink("/proc/self/fd/%d" % fileno)
                 except OSError:
                     path = "?"
+                if tap.depth_headdrop and not path.endswith(".tmp"):
+                    tap.note("journal.reopen", path)          # the replaced journal is mapped again
                 return MmapProxy(_real_mmap.mmap(fileno, length, *a, **k), path)
 
             def __getattr__(self, name):
@@ -193,15 +209,27 @@ class Tap(object):
         def j_open(path, mode="r", *a, **k):
             if isinstance(path, str) and path.endswith(".meta.tmp") and mode == "wb":
                 return W(path, "meta.tmp")
+            if isinstance(path, str) and path.endswith(".tmp") and mode == "wb":
+                return W(path, "journal.tmp")          # ResizableFile creating the new journal with its header
             return builtins.open(path, mode, *a, **k)
 
         class ShutilProxy(object):
             def move(self, src, dst, *a, **k):
-                tap.note("meta.move", dst)
+                tap.note("meta.move" if dst.endswith(".meta") else "journal.rename", dst)
                 return _real_shutil.move(src, dst, *a, **k)
 
             def __getattr__(self, name):
                 return getattr(_real_shutil, name)
+
+        class OsProxy(object):
+            path = os.path
+
+            def remove(self, path_):
+                tap.note("journal.tmp-remove", path_)
+                return os.remove(path_)
+
+            def __getattr__(self, name):
+                return getattr(os, name)
 
         def s_open(path, mode="r", *a, **k):
             if isinstance(path, str) and "w" in mode:
@@ -229,7 +257,7 @@ class Tap(object):
                 tap.flags.add("clear")
             return _orig(self_)
 
-        jm.open, jm.shutil, jm.mmap = j_open, ShutilProxy(), MmapShim()
+        jm.open, jm.shutil, jm.mmap, jm.os = j_open, ShutilProxy(), MmapShim(), OsProxy()
         sermod.open, sermod.atomicReplace = s_open, s_replace
         jm.FileJournal.deleteEntriesTo, jm.FileJournal.deleteEntriesFrom, jm.FileJournal.clear = delto, delfrom, clear
 
@@ -241,7 +269,7 @@ class Tap(object):
                     delattr(mod, name)
             else:
                 setattr(mod, name, sv[key])
-        jm.shutil, jm.mmap = sv["j.shutil"], sv["j.mmap"]
+        jm.shutil, jm.mmap, jm.os = sv["j.shutil"], sv["j.mmap"], sv["j.os"]
         sermod.atomicReplace = sv["s.ar"]
         jm.FileJournal.deleteEntriesTo, jm.FileJournal.deleteEntriesFrom, jm.FileJournal.clear = sv["delto"], sv["delfrom"], sv["clear"]
 
@@ -324,6 +352,7 @@ class CrashRunner(rs.Runner):
         self.crash_sigs = collections.Counter()
         self.step_hashes = set()
         sim = self.sim
+        self.members = bool((spec.get("conf") or {}).get("dynamicMembershipChange"))
 
         class ProbeTransport(sim.tr.Transport):
             def __init__(self):
@@ -471,6 +500,7 @@ class CrashRunner(rs.Runner):
         elif os.path.exists(kw["journalFile"] + ".dump"):
             dump_path = kw["journalFile"] + ".dump"
         # the dump file is readable or absent
+        members0 = rs.dump_members(sim, dump_path) if self.members else None
         if dump_path and os.path.exists(dump_path):
             try:
                 with builtins.open(dump_path, "rb") as f:
@@ -569,6 +599,32 @@ class CrashRunner(rs.Runner):
             if list(obj.log) != expect:
                 out.append(("restart:state-not-replay-of-committed-prefix",
                             "recovered state (applied=%d) is %r, the committed prefix executes to %r" % (la, list(obj.log)[-6:], expect[-6:])))
+            if self.members:
+                bad = rs.members_mismatch(sim, obj, i, self.V, members0)
+                if bad:
+                    out.append(("restart:members-not-fold-of-journal-over-dump", bad))
+                self.cov["crash:members-checked"] += 1
+            if (os.path.basename(kw["journalFile"]) + ".tmp") in p["files"]:
+                # a tmp file of an interrupted head drop is lying around: the next head drop must cope with it
+                self.cov["crash:stale-journal-tmp-images"] += 1
+                try:
+                    obj.forceLogCompaction()
+                    obj.doTick(0.0)
+                    obj.doTick(0.0)
+                    mem = [(e[1], e[2], e[0]) for e in obj._SyncObj__raftLog[:]]
+                    j2 = sim.so.createJournal(kw["journalFile"])       # what is on the disk now
+                    disk = [(e[1], e[2], e[0]) for e in j2[:]]
+                    j2._destroy()
+                    la2 = obj.raftLastApplied
+                    lost2 = [x for x in need if x not in set(disk) and not (disk and x[0] < disk[0][0] and x[0] <= la2)]
+                    if disk != mem or lost2:
+                        out.append(("restart:stale-journal-tmp-harmful",
+                                    "recovered on an image with a stale journal tmp file, then dropped the journal head again: "
+                                    "journal on disk %s, in memory %s, acknowledged entries missing %s"
+                                    % ([x[0] for x in disk][:12], [x[0] for x in mem][:12], [x[0] for x in lost2][:8])))
+                except Exception as x:
+                    out.append(("restart:recovery-raises:%s" % type(x).__name__,
+                                "head drop on an image with a stale journal tmp file raises %r" % (x,)))
             return out
         finally:
             sim.execs.pop(nid, None)
